@@ -49,6 +49,12 @@ type verifCase struct {
 	BaseMs  int64    `json:"base_ms"`
 	Hard    bool     `json:"hard"`    // outages by Close/Restart instead of error replies
 	Wall    bool     `json:"wall"`    // token: wall-clock case (Allow / AllowCtx use time.Now())
+	Groups  []struct {
+		Key   string `json:"key"`
+		Rate  int    `json:"rate"`
+		Burst int    `json:"burst"`
+	} `json:"groups"` // token: limiters on several keys of one store ...
+	InstGroup []int `json:"inst_group"` // ... and the group of every instance
 	Breaker bool     `json:"breaker"` // may push go-zero's circuit breaker over its threshold
 	Ops     [][]any  `json:"ops"`
 }
@@ -440,7 +446,12 @@ func verifTokenOnce(c verifCase) (out verifOut) {
 	}()
 	expect := make([]bool, c.N)
 	for i := range lims {
-		lims[i] = NewTokenLimiter(c.Rate, c.Burst, redis.New(mr.Addr()), c.Key)
+		if len(c.Groups) > 0 {
+			g := c.Groups[c.InstGroup[i]]
+			lims[i] = NewTokenLimiter(g.Rate, g.Burst, redis.New(mr.Addr()), g.Key)
+		} else {
+			lims[i] = NewTokenLimiter(c.Rate, c.Burst, redis.New(mr.Addr()), c.Key)
+		}
 		expect[i] = true
 	}
 	clock := c.BaseMs
